@@ -45,9 +45,10 @@ def claim_step(ck, prog, nepochs, nassets, cursor, claimed_shape='full', expired
                     continue
                 region2 = nassets > 1 and j > 0     # the second asset of a two-asset epoch: known defect carve-out below
                 if region2:
-                    ck.oblige('C09.claim.ledger.second_asset.%s.e%d' % (tag, k), p, z3.And(e['av'][j] != av2, cl2 + av2 != e['tot'][j]),
+                    known = z3.And(e['av'][j] != av2, cl2 == e['cl'][j], tot2 == e['tot'][j], av2 >= 0)      # exactly: available reduced, claimed not updated
+                    ck.oblige('C09.claim.ledger.second_asset.%s.e%d' % (tag, k), p, known,
                               'claimed + available = total breaks for an asset that is not yet in a non-empty `claimed` list', site='claimed list only updated for assets already present')
-                    ck.oblige('C09.claim.ledger.%s.e%d.a%d' % (tag, k, j), p, z3.And(e['av'][j] == av2, cl2 + av2 != e['tot'][j]), 'claimed + available = total')
+                    ck.oblige('C09.claim.ledger.%s.e%d.a%d' % (tag, k, j), p, z3.And(z3.Not(known), z3.Or(cl2 + av2 != e['tot'][j], tot2 != e['tot'][j], av2 < 0)), 'claimed + available = total')
                 else:
                     ck.oblige('C09.claim.ledger.%s.e%d.a%d' % (tag, k, j), p, z3.Or(cl2 + av2 != e['tot'][j], tot2 != e['tot'][j], av2 < 0), 'claimed + available = total (total unchanged)')
                 in_window = k >= nepochs - g if not is_sym(g) else (k >= nepochs - g)
